@@ -165,6 +165,10 @@ func (f *function) diffEnv() (bool, string, diff.ValueDiff, error) {
 
 	var reason string
 	switch len(reasons) {
+	case 0:
+		// The environments differ only in a part this version does not know about (e.g. a record
+		// written by another version of dawn, or a damaged one).
+		reason = "function environment"
 	case 1:
 		reason = reasons[0]
 	case 2:
